@@ -338,6 +338,46 @@ theorem delivery_intact (c : Cfg) (keys : List (Nat × Role)) (ls : List (List S
   rw [this, hf]
   rfl
 
+
+/-! ### Non-vacuity -/
+
+/-- Two segments for two receivers, the stream cut in the middle of a header and of a
+    payload: both are delivered, each to its own receiver. -/
+example : run ⟨3, [(2, .responder), (3, .initiator)]⟩
+      [[0, 0, 0, 0, 0, 2], [0, 1, 7, 0, 0, 0, 0, 0x80, 3, 0, 2], [8, 9]] =
+    ([((2, .responder), [7]), ((3, .initiator), [8, 9])], End.eofHeader) := by decide
+
+/-- A zero-length header after a good segment: the good one is delivered, then the error. -/
+example : run ⟨3, [(2, .responder)]⟩ [[0, 0, 0, 0, 0, 2, 0, 1, 7, 0, 0, 0, 0, 0, 2, 0, 0, 5]] =
+    ([((2, .responder), [7])], End.zeroLen) := by decide
+
+-- Unregistered protocol / wrong direction / initiator-only mode.
+set_option maxRecDepth 8192 in
+example : (run ⟨3, [(2, .responder)]⟩ [[0, 0, 0, 0, 0, 3, 0, 1, 7]]).2 = End.unknownProto 3 := by decide
+set_option maxRecDepth 8192 in
+example : (run ⟨3, [(2, .responder)]⟩ [[0, 0, 0, 0, 0x80, 2, 0, 1, 7]]).2 = End.unknownProto 2 := by decide
+example : (run ⟨1, [(2, .responder)]⟩ [[0, 0, 0, 0, 0, 2, 0, 1, 7]]).2 = End.fromInitiator := by decide
+
+/-- The hypotheses of `delivery_intact` are met by a concrete two-sender interleaving. -/
+example : ∃ (w : List Seg),
+    Interleaving [[(⟨0, 2, [1]⟩ : Seg), ⟨0, 2, [2]⟩], [⟨0, 32771, [9]⟩]] w ∧
+    w = [⟨0, 2, [1]⟩, ⟨0, 32771, [9]⟩, ⟨0, 2, [2]⟩] ∧
+    pidOf (2, Role.responder) = 2 ∧ pidOf (3, Role.initiator) = 32771 := by
+  refine ⟨_, ?_, rfl, by decide, by decide⟩
+  refine Interleaving.pick _ 0 (⟨0, 2, [1]⟩ : Seg) [⟨0, 2, [2]⟩] _ rfl ?_
+  refine Interleaving.pick _ 1 (⟨0, 32771, [9]⟩ : Seg) [] _ rfl ?_
+  refine Interleaving.pick _ 0 (⟨0, 2, [2]⟩ : Seg) [] _ rfl ?_
+  exact Interleaving.done _ (by simp)
+
+example : newSegment 0 2 (List.replicate 65535 0) true = some ⟨0, 32770, List.replicate 65535 0⟩ ∧
+    newSegment 0 2 (List.replicate 65536 0) true = none := by
+  unfold newSegment maxPayload respFlag GV.Gen.Limits.segmentMaxPayloadLength
+    GV.Gen.Limits.segmentProtocolIdResponseFlag
+  simp only [List.length_replicate]
+  constructor
+  · rw [if_neg (by omega)]; rfl
+  · rw [if_pos (by omega)]
+
 /-! ### Regenerated tie: the header helpers translated from muxer/segment.go -/
 
 theorem and_flag (pid : Nat) : pid &&& 32768 = if pid / 32768 % 2 = 1 then 32768 else 0 := by
